@@ -159,7 +159,7 @@ func runScript(t fataler, s *rounds.Script, desc string) (pruneDeleted, pruneRun
 }
 
 func TestDeadNodesAndPrune(t *testing.T) {
-	ev.Rapid(t, 500, 6000)
+	ev.Rapid(t, 1000, 8000)
 	rapid.Check(t, func(rt *rapid.T) {
 		s := rounds.Gen(rt, 7, true)
 		desc := describe(s)
